@@ -7,6 +7,7 @@ import MantraDex.Driver.EpochStream
 import MantraDex.Driver.PoolStream
 import MantraDex.Driver.FarmStream
 import MantraDex.Driver.HistStream
+import MantraDex.Driver.MonStream
 
 open MantraDex MantraDex.Driver
 
@@ -20,7 +21,10 @@ def dispatchPure (op : String) (args : List String) : Option String :=
   | none =>
   match mintmathOp op args with
   | some r => some r
-  | none => farmmathOp op args
+  | none =>
+  match farmmathOp op args with
+  | some r => some r
+  | none => monOp op args
 
 def dispatch (st : HistState) (op : String) (args : List String) : HistState × String :=
   match dispatchPure op args with
